@@ -170,12 +170,14 @@ def resolve_gl(model: ir.Model, ref: dict) -> OR.GraphLike | None:
     'view': None | 'full' | {'inputs': [names], 'outputs': [names]}}."""
     obj = _root_obj(model, ref["root"])
     enclosing: set[int] = set()
+    enclosing_inits: dict[int, ir.Value] = {}
     for i, name, j in ref.get("path") or []:
         enclosing |= _defined_ids(obj)
+        enclosing_inits.update((id(v), v) for v in OR.initializers_of(obj))
         attr = list(obj)[i].attributes[name]
         obj = attr.value if attr.type == ir.AttributeType.GRAPH else attr.value[j]
     kind = "nested" if ref.get("path") else ("function" if isinstance(obj, ir.Function) else "graph")
-    base = OR.GraphLike(obj, kind, ref, enclosing_defined=enclosing)
+    base = OR.GraphLike(obj, kind, ref, enclosing_defined=enclosing, enclosing_inits=enclosing_inits)
     view = ref.get("view")
     if not view:
         return base
@@ -254,6 +256,10 @@ def random_cut(gl: OR.GraphLike, rng: random.Random):
             if multi:
                 ins.append(rng.choice(multi))  # one output of a multi-output node
                 strategy += "+multi"
+    if gl.kind == "nested" and gl.free and rng.random() < 0.9:
+        # a value of an enclosing graph cannot bound a region of the nested body (report-only when tried, see judge_cut):
+        # mostly leave it out, so that the cut is judged (uncovered when the value is no initializer)
+        ins = [v for v in ins if id(v) in gl.top_defined]
     ins = _dedupe([v for v in ins if v.name])
     rng.shuffle(ins)
     return ins, _dedupe(outs), strategy
@@ -352,6 +358,8 @@ def _UNC_ORDER(cls: str):
 def cut_features(gl: OR.GraphLike, c: OR.Closure, ins, outs) -> list[str]:
     """What is special about a (shrunk) cut, most specific first."""
     feats = []
+    if _enclosing_class(c):
+        feats.append(_enclosing_class(c))
     reasons = set()
     for s in list(c.why.values()) + list(c.init_why.values()) + list(c.unc_why.values()):
         reasons |= s
@@ -383,6 +391,17 @@ def cut_features(gl: OR.GraphLike, c: OR.Closure, ins, outs) -> list[str]:
 def cut_class(gl: OR.GraphLike, c: OR.Closure, ins, outs) -> str:
     """The most specific feature of the shrunk cut names the class (all features go into the message)."""
     return cut_features(gl, c, ins, outs)[0]
+
+
+def _holds_graph_twice(gl: OR.GraphLike, c: OR.Closure) -> bool:
+    seen: set[int] = set()
+    for n in c.nodes:
+        for child in gl.scope.children_of.get(id(n), ()):
+            for sc in child.walk():
+                if id(sc.graph) in seen:
+                    return True
+                seen.add(id(sc.graph))
+    return False
 
 
 def _node_desc(n: ir.Node, depth: int = 0):
@@ -470,10 +489,14 @@ def judge_cut(env: Env, gl: OR.GraphLike, ins, outs, in_by_name, out_by_name, *,
     outcome_kind = "returned" if out.raised is None else "raised:" + type(out.raised).__name__
 
     # --- what the statement does not settle ---------------------------------------------------------
-    if gl.kind == "nested" and gl.free:
+    if gl.kind == "nested" and any(id(v) not in gl.top_defined for v in ins):
+        # a value of an enclosing graph given as boundary input of a nested body: extract refuses values that do not
+        # belong to the graph; whether such a value may bound the region is not settled by the statement
         out.judged = False
-        out.report_only = "report_only_cut_in_capturing_nested_body:" + outcome_kind
+        out.report_only = "report_only_enclosing_value_as_boundary_input_of_nested_body:" + outcome_kind
         return out
+    if gl.kind == "nested" and gl.free:
+        out.events.append("cuts_in_capturing_nested_body")
     if any(k == "dangling" for k in c.unc_kind.values()):
         out.judged = False
         out.report_only = "report_only_region_uses_undefined_value:" + outcome_kind
@@ -482,12 +505,22 @@ def judge_cut(env: Env, gl: OR.GraphLike, ins, outs, in_by_name, out_by_name, *,
         out.judged = False
         out.report_only = "report_only_region_not_topologically_ordered:" + outcome_kind
         return out
+    if gl.shared_graph_ids and _holds_graph_twice(gl, c):
+        # one Graph object referenced by two attributes inside the region: what an independent copy of an aliased graph
+        # is (one copy referenced twice / two copies) is not settled by the statement; today the cloner refuses to copy
+        # the graph a second time ('already owned by a different graph')
+        out.judged = False
+        out.report_only = "report_only_region_references_one_graph_object_twice:" + outcome_kind
+        return out
 
     # --- uncovered: must raise ----------------------------------------------------------------------
     if not c.covered:
-        classes = sorted({_why_class(c.unc_why[k]) for k in c.uncovered}, key=_UNC_ORDER)
+        classes = sorted({_why_class(c.unc_why[k]) + ("|enclosing-scope-value" if c.unc_kind.get(k) == "enclosing-scope" else "")
+                          for k in c.uncovered}, key=_UNC_ORDER)
         for cl in classes:
             out.events.append("uncovered_class:" + cl.split("|")[0])
+        if any(k == "enclosing-scope" for k in c.unc_kind.values()):
+            out.events.append("uncovered_class:enclosing-scope-value")
         classes = classes[:1]  # the most basic way in which the cut is uncovered names the mechanism
         if out.raised is None:
             out.violations.append(("uncovered-not-rejected", {"classes": classes,
@@ -499,7 +532,8 @@ def judge_cut(env: Env, gl: OR.GraphLike, ins, outs, in_by_name, out_by_name, *,
 
     # --- covered: must return the exact region ----------------------------------------------------------
     if out.raised is not None:
-        out.violations.append(("covered-but-raised", {"exc": _site(out.raised), "text": str(_root_exception(out.raised))[:300]}))
+        out.violations.append(("covered-but-raised", {"exc": _site(out.raised), "text": str(_root_exception(out.raised))[:300],
+                                                      "enclosing": _enclosing_class(c)}))
         return out
     out.events.append("covered_returned")
     if not isinstance(result, ir.Graph):
@@ -540,7 +574,8 @@ def judge_cut(env: Env, gl: OR.GraphLike, ins, outs, in_by_name, out_by_name, *,
     got_inits = dict(result.initializers)
     for name, v in exp_inits.items():
         if name not in got_inits:
-            out.violations.append(("initializer-missing", {"name": name, "why": _why_class(c.init_why[id(v)]).replace("-input", "").replace("-itself", "")}))
+            out.violations.append(("initializer-missing", {"name": name, "why": _why_class(c.init_why[id(v)]).replace("-input", "").replace("-itself", "")
+                                                           + ("|declared-in-enclosing-graph" if id(v) in c.outer_inits else "")}))
         elif got_inits[name].const_value is not v.const_value:
             a, b = got_inits[name].const_value, v.const_value
             same = a is not None and b is not None and a.dtype == b.dtype and tuple(a.shape) == tuple(b.shape) and a.tobytes() == b.tobytes()
@@ -583,9 +618,22 @@ def judge_cut(env: Env, gl: OR.GraphLike, ins, outs, in_by_name, out_by_name, *,
             out.events.append("regions_needing_capture_GRAPHS")
     if any(all(r.startswith("capture") for r in s) for s in c.init_why.values()):
         out.events.append("regions_with_initializer_needed_only_by_nested_body")
+    if c.outer_inits:
+        out.events.append("regions_needing_enclosing_initializer")
+        out.events.append("regions_needing_" + _enclosing_class(c))
     if run_exec is not None and not out.violations:
         run_exec(out)
     return out
+
+
+def _enclosing_class(c: OR.Closure) -> str | None:
+    """How a region cut from a nested body needs initializers declared in an enclosing graph: not at all (None), only
+    through inputs of its own nodes, or (also) only through a graph nested deeper."""
+    if not c.outer_inits:
+        return None
+    if any(all(r.startswith("capture") for r in c.init_why[k]) for k in c.outer_inits):
+        return "enclosing-initializer-needed-only-by-nested-body"
+    return "enclosing-initializer"
 
 
 def _missing_class(reasons: set[str]) -> str:
@@ -671,9 +719,10 @@ def exec_clause(env: Env, source: CX.Source, outs, result: ir.Graph, evaluators,
 # =================================================================================================
 # shrinking and reporting
 # =================================================================================================
-def _same_failure(o: Outcome, clause: str, exc: str | None) -> bool:
+def _same_failure(o: Outcome, clause: str, exc) -> bool:
+    """``exc`` is None or (raise site, class of enclosing initializers needed): a raise keeps both while it shrinks."""
     for cl, info in o.violations:
-        if cl == clause and (exc is None or info.get("exc") == exc):
+        if cl == clause and (exc is None or (info.get("exc"), info.get("enclosing")) == tuple(exc)):
             return True
     return False
 
@@ -773,7 +822,7 @@ def report(ctx, model_key: dict, env: Env, gl: OR.GraphLike, ins, outs, in_by_na
         if clause in done:
             continue
         done.add(clause)
-        exc = info.get("exc")
+        exc = (info["exc"], info.get("enclosing")) if "exc" in info else None
         name_mode_in = dict((id(v), b) for v, b in zip(ins, in_by_name))
         name_mode_out = dict((id(v), b) for v, b in zip(outs, out_by_name))
         default_mode = all(list(in_by_name) + list(out_by_name))  # values the shrinker adds are named like the rest
@@ -784,7 +833,8 @@ def report(ctx, model_key: dict, env: Env, gl: OR.GraphLike, ins, outs, in_by_na
 
         s_ins, s_outs = shrink_cut(judge, gl, list(ins), list(outs), clause, exc)
         final = judge(s_ins, s_outs)
-        sinfo = next((i2 for c2, i2 in final.violations if c2 == clause and (exc is None or i2.get("exc") == exc)), info)
+        sinfo = next((i2 for c2, i2 in final.violations
+                      if c2 == clause and (exc is None or (i2.get("exc"), i2.get("enclosing")) == exc)), info)
         sig = signature_of(gl, clause, sinfo, final.closure, s_ins, s_outs)
         s_in_flags = [name_mode_in.get(id(v), default_mode) for v in s_ins]
         s_out_flags = [name_mode_out.get(id(v), default_mode) for v in s_outs]
@@ -856,6 +906,19 @@ def check_implicit(ctx, model_key: dict, root_ref: list, root_graph, counts: Cou
         if gid not in exp:
             which = "root" if g is root_graph else "not-a-nested-graph"
             fire("implicit-usage|extra-graph|" + which, f"key {g.name!r} is not a graph nested in the root")
+    # Graph objects referenced from more than one attribute (reach of the workload)
+    holders: dict[int, set[int]] = {}
+    for sc in tree.walk():
+        if sc.parent is not None:
+            holders.setdefault(id(sc.graph), set()).add(id(sc.parent.graph))
+    occurrences = Counter(id(sc.graph) for sc in tree.walk() if sc.parent is not None)
+    for gid, (g, captured, scope) in exp.items():
+        if occurrences[gid] > 1:
+            counts["implicit_shared_graph_objects"] += 1
+            if len(holders[gid]) > 1:
+                counts["implicit_shared_graph_objects_held_by_different_graphs"] += 1
+                if captured:
+                    counts["implicit_shared_capturing_graph_objects_held_by_different_graphs"] += 1
     for gid, (g, captured, scope) in exp.items():
         counts["implicit_nested_graphs_checked"] += 1
         counts[f"implicit_nested_depth:{min(scope.depth, 3)}"] += 1
@@ -909,6 +972,94 @@ class _NestingIRGen(GI.IRGen):
         return super().maybe(0.5 if p == 0.22 else p)
 
 
+def _all_value_names(model: ir.Model) -> set[str]:
+    return {o.name for kind, o in OR.collect_objects([model.graph, *model.functions.values()], follow_links=False).values()
+            if kind == "Value" and o.name}
+
+
+def share_subgraphs(model: ir.Model, rng: random.Random, times: int) -> list[dict]:
+    """Reference nested Graph OBJECTS from a second place (the IR lets several attributes hold the same Graph; the
+    repository's own tests do it for the two branches of an If).  A nested graph S is referenced again from an
+    attribute of a node of another graph Q of the same root - the graph that holds S, a sibling nested graph, a graph
+    nested deeper or an enclosing one - chosen so that the model stays well scoped: every value S (or a graph below it)
+    captures is defined in Q or a graph enclosing Q, before the node through which Q is reached, and Q is not S or
+    nested in S.  The attribute goes on a new node appended to Q or on an existing node of Q (GRAPH, or GRAPHS
+    holding S once or twice).  Returns a description of what was shared."""
+    done: list[dict] = []
+    names = _all_value_names(model)
+    counter = 0
+    for _ in range(times):
+        root = rng.choice(_roots(model))
+        obj = _root_obj(model, root)
+        tree = OR.Scope(obj.graph if isinstance(obj, ir.Function) else obj, None, None)
+        scopes = list(tree.walk())
+        nested = [x for x in scopes if x.parent is not None]
+        if not nested:
+            continue
+        capturing = [x for x in nested if x.captured]
+        src = rng.choice(capturing) if capturing and rng.random() < 0.8 else rng.choice(nested)
+
+        def chain(x):
+            out = []
+            while x is not None:
+                out.append(x)
+                x = x.parent
+            return out  # x, parent, ..., root
+
+        below_src = {id(x.graph) for x in src.walk()}
+
+        def admits(q) -> bool:
+            ch = chain(q)
+            if id(q.graph) in below_src:
+                return False  # Q is S or (some occurrence of the Graph object Q) lies below S: the reference would close a cycle
+            need = set(src.captured)
+            below = None  # the scope through which the walk came up
+            for a in ch:
+                pos = {id(o): i for i, n in enumerate(a.nodes) for o in n.outputs}
+                limit = len(a.nodes) if below is None else below.via[0]
+                for k in list(need):
+                    if k in a.defined:
+                        if k in pos and pos[k] >= limit:
+                            return False  # produced after the node through which Q is reached
+                        need.discard(k)
+                below = a
+            return not need
+
+        cands = [q for q in scopes if admits(q)]
+        if not cands:
+            continue
+        elsewhere = [q for q in cands if all(a is not q for a in chain(src.parent))]  # not the holder of S nor above it
+        q = rng.choice(elsewhere) if elsewhere and rng.random() < 0.7 else rng.choice(cands)
+        counter += 1
+        attr_name = f"shared_{counter}"
+        form = rng.choice(["GRAPH", "GRAPH", "GRAPHS", "GRAPHS-twice"])
+        if form == "GRAPH":
+            attr = ir.AttrGraph(attr_name, src.graph)
+        else:
+            attr = ir.AttrGraphs(attr_name, [src.graph] * (2 if form == "GRAPHS-twice" else 1))
+        place = "new-node"
+        if q.nodes and rng.random() < 0.4:
+            # only a node behind everything S captures from Q keeps Q sorted
+            pos = {id(o): i for i, n in enumerate(q.nodes) for o in n.outputs}
+            first = max([pos[k] + 1 for k in src.captured if k in pos], default=0)
+            idx = [i for i in range(first, len(q.nodes))]
+            if idx:
+                node = q.nodes[rng.choice(idx)]
+                node.attributes[attr_name] = attr
+                place = "existing-node"
+        if place == "new-node":
+            while f"shr{counter}" in names:
+                counter += 1
+            names.add(f"shr{counter}")
+            node = ir.Node("", rng.choice(["If", "Loop", "SharedUser"]), [], [attr], outputs=[ir.Value(name=f"shr{counter}")])
+            q.graph.append(node)
+        rel = ("same-graph" if q is src.parent else "enclosing" if any(a is q for a in chain(src.parent))
+               else "nested-below-holder" if any(a is src.parent for a in chain(q)) else "other-branch")
+        done.append({"root": root, "shared": src.path(), "into": q.path(), "relation": rel, "form": form, "place": place,
+                     "captures": len(src.captured)})
+    return done
+
+
 def build_model(key: dict):
     """(model, case-or-None) from a JSON-able model key.  Deterministic."""
     if key["kind"] == "exec":
@@ -919,6 +1070,8 @@ def build_model(key: dict):
     gen = _NestingIRGen(rng, max_depth=key.get("max_depth", 3), with_functions=True, with_meta=False)
     model = gen.model()
     GI.uniquify_names(model)
+    if key.get("share"):
+        share_subgraphs(model, random.Random("C18:share:" + key["gen_key"]), int(key["share"]))
     return model, None, "structural"
 
 
@@ -931,7 +1084,8 @@ def draw_model_key(ctx, case_id: int, rng: random.Random) -> dict:
         seed = rng.getrandbits(48)
         feats = sorted(GE.choose_features(random.Random(f"{seed}:features")))
         return {"kind": "exec", "flavour": "big", "seed": seed, "size": rng.choice([2, 3, 5, 8]), "features": feats}
-    return {"kind": "ir", "gen_key": f"{ctx.seed}:{case_id}", "max_depth": rng.choice([2, 3, 3])}
+    # 'share': how many times a nested Graph object is referenced from a second attribute somewhere else in its root
+    return {"kind": "ir", "gen_key": f"{ctx.seed}:{case_id}", "max_depth": rng.choice([2, 3, 3]), "share": rng.choice([0, 0, 1, 2, 3])}
 
 
 def graphlike_refs(model: ir.Model, rng: random.Random, flavour: str) -> list[dict]:
@@ -986,7 +1140,7 @@ def run_graphlike(ctx, key: dict, env: Env, case, gl: OR.GraphLike, rng: random.
     # --- which cuts -----------------------------------------------------------------------------------
     # all cuts: 2^n * (2^n - 1); a per-shard credit (a count, not a time) keeps 5..7-value graphs from eating the shard
     n_all = (1 << n) * ((1 << n) - 1) if n <= EXHAUSTIVE_MAX_VALUES else 0
-    exhaustive = (0 < n_all and not capturing_nested and not gl.ambiguous_names
+    exhaustive = (0 < n_all and (not capturing_nested or n <= 4) and not gl.ambiguous_names
                   and (gl.kind in ("graph", "function", "nested") or n <= 4)
                   and (n <= 4 or n_all <= state["exhaustive_left"] or (n == EXHAUSTIVE_MAX_VALUES and state["free7"] > 0)))
     if exhaustive:
@@ -999,7 +1153,7 @@ def run_graphlike(ctx, key: dict, env: Env, case, gl: OR.GraphLike, rng: random.
         counts[f"exhaustive_graphlikes:values={n}"] += 1
         counts["exhaustive_cuts"] += len(cuts)
     else:
-        k = 6 if capturing_nested else int(params.get("cuts_big", 26))
+        k = int(params.get("cuts_capturing_nested", 16)) if capturing_nested else int(params.get("cuts_big", 26))
         if gl.kind in ("view", "subview"):
             k = max(8, k // 2)
         cuts = [random_cut(gl, rng) for _ in range(k)]
@@ -1053,6 +1207,8 @@ def run_graphlike(ctx, key: dict, env: Env, case, gl: OR.GraphLike, rng: random.
             continue
         counts["cuts_judged"] += 1
         counts["cuts_on:" + gl.kind] += 1
+        if capturing_nested:
+            counts["cuts_on:nested-capturing"] += 1
         counts["cut_strategy:" + strategy] += 1
         counts["cut_mode:" + mode] += 1
         if mode != "obj":
